@@ -58,6 +58,12 @@ def settings_for(cls, rng, tier):
         if f == "use_min_gen_set_lowerbound_partition_constraints":
             s["use_min_gen_set_lowerbound"] = True
         out.append(s)
+    if cls.endswith("Cycles"):
+        # the three sub-switches of the safe-sequence optimisation act only while it is on: every combination of them with it
+        for bits in itertools.product([False, True], repeat=3):
+            s = dict(base); s["optimize_with_safe_sequences"] = True
+            s.update(zip(["optimize_with_safe_sequences_allow_geq_constraints", "optimize_with_safe_sequences_fix_via_bounds", "optimize_with_safe_sequences_fix_zero_edges"], bits))
+            out.append(s)
     allon = {f: True for f in flags}
     if not cls.endswith("Cycles"):
         allon["optimize_with_safe_sequences"] = False; allon["optimize_with_flow_safe_paths"] = False if "optimize_with_flow_safe_paths" in allon else None
@@ -93,6 +99,27 @@ def corpus():
                 if cls != "kPathCoverCycles":
                     k2.update({"flow_attr": "flow", "weight_type": "int"})
                 out.append({"cls": cls, "inst": {"cls": cls, "spec": sp, "kw": k2}})
+    # acyclic inputs to the walk models (a legal special case: no safe walk enters a cycle, so only 'fix to 1' updates are queued): two disjoint
+    # routes of the same flow (k=1 has no solution), and a junction whose in-flows 3+2 leave as 4+1 next to a separate edge (4 walks needed, slack 2 with 3)
+    D1 = [("s", "a", 2), ("a", "t", 2), ("s", "b", 2), ("b", "t", 2)]
+    D2 = [("s", "a", 3), ("a", "m", 3), ("s", "m", 2), ("m", "x", 4), ("m", "y", 1), ("s", "z", 1)]
+    for base, ks in ((D1, (1, 2)), (D2, (3, 4))):
+        nodes = list(dict.fromkeys(x for u, v, _ in base for x in (u, v)))
+        sp = gen.spec(nodes, [(u, v) for u, v, _ in base], eattr={(u, v): {"flow": f} for u, v, f in base})
+        for cls, kws in (("MinFlowDecompCycles", [{}]), ("kFlowDecompCycles", [{"k": k_} for k_ in ks]), ("kMinPathErrorCycles", [{"k": k_} for k_ in ks]), ("kLeastAbsErrorsCycles", [{"k": ks[0]}])):
+            for kw in kws:
+                k2 = dict(kw); k2.update({"flow_attr": "flow", "weight_type": "int"})
+                out.append({"cls": cls, "inst": {"cls": cls, "spec": sp, "kw": k2}})
+    # covers with constraints whose coverage is measured by LENGTH (the count fraction stays at its default 1): a diamond that needs two paths, and
+    # two bubbles in a row whose constraints force two paths through p so that a third one is needed for q
+    spd = gen.spec(["a", "b", "c", "d"], [("a", "b"), ("a", "c"), ("b", "d"), ("c", "d")], eattr={e: {"len": 1} for e in [("a", "b"), ("a", "c"), ("b", "d"), ("c", "d")]})
+    E5 = [("s", "p", 1), ("p", "m", 1), ("s", "q", 0.25), ("q", "m", 0.25), ("m", "u", 1), ("u", "t", 1), ("m", "v", 1), ("v", "t", 1)]
+    spb = gen.spec(["s", "p", "q", "m", "u", "v", "t"], [(u, v) for u, v, _ in E5], eattr={(u, v): {"len": l} for u, v, l in E5})
+    for sp, cons, frac, ks in ((spd, [[["b", "d"]]], 0.5, (1, 2)), (spb, [[["s", "p"], ["m", "u"]], [["s", "p"], ["m", "v"]]], 0.6, (2, 3))):
+        for cls, kws in (("MinPathCover", [{}]), ("kPathCover", [{"k": k_} for k_ in ks])):
+            for kw in kws:
+                k2 = dict(kw); k2.update({"subpath_constraints": cons, "subpath_constraints_coverage_length": frac, "length_attr": "len"})
+                out.append({"cls": cls, "inst": {"cls": cls, "spec": sp, "kw": k2}})
     # node-weighted rings (no natural source or sink) entered/left through additional start/end nodes
     for n_ in (2, 3, 4):
         rn = [f"r{i}" for i in range(n_)]; re_ = [(rn[i], rn[(i + 1) % n_]) for i in range(n_)]
@@ -119,7 +146,7 @@ def gen_cases(tier, seed):
             cases.append({"cls": cls, "rs": f"C05:{seed}:{cls}:{i}", "tier": tier})
     # constraints with length-based coverage < 1 (the safety options add their own constraints on top of the caller's)
     for cls in ("kPathCover", "kPathCover", "MinPathCover", "kLeastAbsErrors", "kMinPathError", "MinFlowDecomp"):
-        for i in range(per // 2):
+        for i in range(per if cls.endswith("PathCover") else per // 2):
             cases.append({"cls": cls, "rs": f"C05len:{seed}:{cls}:{i}:{len(cases)}", "tier": tier, "want": "covlen"})
     # many small dense conserving flows, few settings each: flow-safe paths used as constraints must never change the minimum
     for i in range(100 if tier == "quick" else 2000):
